@@ -10,6 +10,7 @@ from core.loader import ClassInfo, FuncInfo, ModuleInfo, own_nodes
 
 from .c02_sym import (
     _MISSING_KEY,
+    dataclass_eq,
     ANode,
     App,
     BoundBuiltin,
@@ -48,7 +49,7 @@ PY_TYPES = {"str": str, "int": int, "bool": bool, "list": list, "tuple": tuple, 
 PY_EXC = {n for n in dir(_pybuiltins) if isinstance(getattr(_pybuiltins, n), type) and issubclass(getattr(_pybuiltins, n), BaseException)}
 BUILTIN_FUNCS = {
     "len", "isinstance", "issubclass", "hasattr", "getattr", "setattr", "range", "enumerate", "zip", "reversed", "sorted", "any", "all", "map", "filter", "iter", "next",
-    "print", "repr", "min", "max", "sum", "abs", "id", "callable", "super", "vars", "format",
+    "print", "repr", "min", "max", "sum", "abs", "id", "callable", "super", "vars", "format", "hash",
 }
 PY_MUTATORS = {"append", "extend", "insert", "pop", "popleft", "appendleft", "remove", "clear", "sort", "reverse", "update", "add", "discard", "setdefault", "popitem", "difference_update", "intersection_update", "symmetric_difference_update", "__setitem__", "__delitem__", "__setattr__"}
 PURE_LIBS = ("re", "itertools", "operator", "string", "math", "posixpath", "functools", "_operator")  # stdlib calls folded on constant arguments
@@ -100,6 +101,10 @@ class Interp(InterpBase):
             return ExtRef(f"builtins.{name}")
         if name in ("True", "False", "None"):
             return {"True": True, "False": False, "None": None}[name]
+        if name == "NotImplemented":
+            return NotImplemented
+        if name == "Ellipsis":
+            return Ellipsis
         if name == "__name__":
             return mod.name
         raise Unsupported(f"unknown name `{name}`", node, frame.fi if frame else None)
@@ -856,7 +861,8 @@ class Interp(InterpBase):
             c = self.eval(t.value, frame)
             k = self.eval(t.slice, frame)
             if isinstance(c, dict):
-                c[_hashable(k)] = v
+                key = self.dict_key(c, _hashable(k))
+                c[_hashable(k) if key is _MISSING else key] = v
             elif isinstance(c, list) and (isinstance(k, int) or isinstance(k, slice)):
                 try:
                     c[k] = v
@@ -1130,8 +1136,17 @@ class Interp(InterpBase):
             return c  # generic alias such as list[str]
         raise Unsupported(f"subscript of a {type(c).__name__} value", node, fi)
 
+    def value_equality(self, v: Inst) -> bool:
+        """The instance's class (or a base inside the repository) defines __eq__: containers compare it by value."""
+        return self.repo.lookup_method(v.ci, "__eq__") is not None or dataclass_eq(v.ci)
+
     def dict_key(self, d: dict, k: Any) -> Any:
         """The key of `d` equal to k: structurally, or by an equality already decided on this path (distinct terms are distinct keys)."""
+        if isinstance(k, Inst) and self.value_equality(k):
+            for key in d:
+                if key is k or (isinstance(key, Inst) and self.equal(key, k)):
+                    return key
+            return _MISSING
         try:
             if k in d:
                 return k
